@@ -60,6 +60,11 @@ func c11Corpus(tier string) []gram.Seed {
 	// (whatever is derived from them alone - symbol tables, comments in emitted files - has no other order to fall back on)
 	out = append(out, gram.Seed{Name: "regdefs-used-by-ignored-only", Text: "id : 'a'-'z' { 'a'-'z' } ;\n!comment : _line | _block ;\n_line : '/' '/' { . } '\\n' ;\n_block : '/' '*' { 'A'-'Z' | '%' } '*' '/' ;\n_unusedx : '0'-'4' '#' ;\n_unusedy : '5'-'9' '@' ;\n_unusedz : '&' ;\n!ws : ' ' | '\\t' ;\nS : id | S id ;\n"},
 		gram.Seed{Name: "regdefs-unused-lexer-only", Text: "t : 'a' ;\n_p : '1' ;\n_q : '2' ;\n_r : '3' '4' ;\n_s : '5'-'7' ;\n!i : _p _q ;\n"})
+	// a start symbol that derives itself (accept against reduce: the generator refuses such grammars; that, too, must
+	// not depend on the order in which a map hands out the items)
+	for i, s := range []string{"S: S | a", "S: A | a ; A: S", "Stmts: Stmts Stmt Opt | Stmts Opt | Stmt ; Stmt: a ; Opt: empty | semi"} {
+		out = append(out, gram.Seed{Name: fmt.Sprint("cyclic-start-", i), Text: gram.Mk(s).Text()})
+	}
 	for i, g := range gram.L6() {
 		out = append(out, gram.Seed{Name: fmt.Sprint("L6-", i), Text: g.Text()})
 	}
